@@ -136,6 +136,25 @@ theorem C23_witness_receiver :
     resErrs (checkModule fixed wReceiver) = some [] ∧ resErrs (checkModule ideal wReceiver) = some [⟨"v".toList, L 3 0, L 2 4⟩] := by
   decide
 
+/-- `v = ![1]; p!() =⏎ v = ![3]⏎ w = v⏎ u = v; t = v` — moves under shadowing: the move of the inner `v` marks the inner
+    variable (its later use at 5:8 is reported with move site 4:8) and leaves the outer `v` alone (its use at 6:4 is accepted).
+    `drop` and `check_if_dropped` resolve a name to the same, innermost, variable (seeded change C23-m9 broke exactly this). -/
+private def wShadowMove : ExprList := .ofList
+  [varDef 1 "v" [newList 1 4],
+   .defn (L 2 0) ⟨"p!".toList, false, true, true, false, false, false, false, none⟩ .nil
+     (.ofList [.defn (L 3 4) ⟨['v'], false, false, false, false, false, false, false, none⟩ .nil (.ofList [newList 3 8]),
+               .defn (L 4 4) ⟨['w'], false, false, false, false, false, false, false, none⟩ .nil (.ofList [mutIdent 4 8 "v"]),
+               .defn (L 5 4) ⟨['u'], false, false, false, false, false, false, false, none⟩ .nil (.ofList [mutIdent 5 8 "v"])]),
+   varDef 6 "t" [mutIdent 6 4 "v"]]
+
+theorem C23_witness_move_under_shadowing :
+    resErrs (checkModule fixed wShadowMove) = some [⟨"v".toList, L 5 8, L 4 8⟩] := by decide
+
+/-- General form: a move never touches a variable of the same name in a scope further out than the innermost alive one. -/
+theorem C23_move_marks_innermost (sc : Scope) (rest : List Scope) (n : Name) (l : Loc) (h : n ∈ sc.alive) :
+    dropVar (sc :: rest) n l = some ({ alive := sc.alive.erase n, dropped := insertDropped sc.dropped n l } :: rest) := by
+  simp [dropVar, h]
+
 /-- non-vacuity of `C23_move_then_use` / `C23_shadowing_shields` -/
 example : findDropped fixed [⟨["v".toList], []⟩] "v".toList = none ∧ (∃ sc ∈ [(⟨["v".toList], []⟩ : Scope)], "v".toList ∈ sc.alive) ∧
     findDropped fixed [⟨["v".toList], []⟩, ⟨[], [("v".toList, L 2 4)]⟩] "v".toList = none ∧
